@@ -304,13 +304,26 @@ func c10RacePrograms(tier string) []*Spec {
 			sp := &Spec{Name: fmt.Sprintf("c10r-ewma-t%d", total), Refresh: rf, Q: -1}
 			sp.Bars = []BarSpec{{Total: total, Pre: []DecorSpec{{Builtin: "ewmaeta"}}, App: []DecorSpec{{Builtin: "ewmaspeed", Depth: 1}, {Builtin: "percentage", Sync: true}}}, {Total: 5, App: []DecorSpec{{Builtin: "counters", Sync: true}}}}
 			sp.Main = []Op{{K: "add", B: 0}, {K: "add", B: 1}}
-			mut := []Op{{K: "ewma", N: 1}, {K: "ewma", N: 1}, {K: "ewma", N: 1}}
+			mut := []Op{{K: "ewma", N: 1}, {K: "ewmaset", N: 2}, {K: "ewma", N: 1}}
 			if total == 0 {
 				mut = append(mut, Op{K: "settotal", N: -1, F: true})
 			}
 			sp.Clients = [][]Op{mut, {{K: "incr", B: 1, N: 1}, {K: "get", B: 0}, {K: "incr", B: 1, N: 4}}}
 			if rf == "manual" {
 				sp.Clients = append(sp.Clients, []Op{{K: "refresh"}, {K: "refresh"}, {K: "refresh"}, {K: "refresh"}})
+			}
+			out = append(out, sp)
+		}
+		// TraverseDecorators / DecoratorAverageAdjust callbacks against rendering of the same decorators
+		{
+			sp := &Spec{Name: "c10r-avgadj", Refresh: rf, Q: -1}
+			sp.Bars = []BarSpec{{Total: 5, Pre: []DecorSpec{{Builtin: "avgeta"}}, App: []DecorSpec{{Builtin: "elapsed"}, {Builtin: "avgspeed"}}}, {Total: 5, App: []DecorSpec{{Builtin: "avgspeed", Depth: 1}}}}
+			sp.Main = []Op{{K: "add", B: 0}, {K: "add", B: 1}}
+			adj := []Op{{K: "avgadj", B: 0}, {K: "traverse", B: 0}, {K: "avgadj", B: 1}}
+			mut := []Op{{K: "incr", B: 0, N: 1}, {K: "incr", B: 1, N: 1}, {K: "incr", B: 0, N: 4}, {K: "incr", B: 1, N: 4}}
+			sp.Clients = [][]Op{adj, mut}
+			if rf == "manual" {
+				sp.Clients = append(sp.Clients, []Op{{K: "refresh"}, {K: "refresh"}, {K: "refresh"}})
 			}
 			out = append(out, sp)
 		}
